@@ -182,7 +182,7 @@ def run(ctx):
     sa = prog.fn('sigalrm', 'qmail-send.c')
     r4.check(any(x.k == 'asg' and x.args[0].path() == 'G:flagrunasap' and x.args[1].const == 1 for x in sa.all_x()), 'sigalrm-sets-flagrunasap', sa.unit + ':sigalrm', '')
     ms = qsend.analyse_main(db, rep)
-    attach(r4, ms, only={'main:ALRM-handled-before-the-wakeup-time-is-computed', 'main:retry-times-saved-before-exit-0'})
+    attach(r4, ms, only={'main:ALRM-handled-before-the-wakeup-time-is-computed', 'main:retry-times-saved-before-exit-0', 'main:ALRM-flag-cleared-before-pqrun'})
     mainf = prog.fn('main', 'qmail-send.c')
     pr = mainf.calls('pqrun')
     r4.check(bool(pr) and any(c.path() == 'G:flagrunasap' and t is True for c, t in mainf.guards(pr[0], fresh=False) or []), 'loop-calls-pqrun-when-flagged', mainf.unit + ':main', '')
